@@ -40,7 +40,8 @@ func (p *expressionPostFixerImpl) ConvertToPostfix(infixTokens []*token) ([]*Ope
 	var result []*Operation
 	// surround the whole thing with brackets
 	var opStack = []*token{{TokenType: openBracket}}
-	var tokens = append(infixTokens, &token{TokenType: closeBracket})
+	var implicitClose = &token{TokenType: closeBracket}
+	var tokens = append(infixTokens, implicitClose)
 
 	for _, currentToken := range tokens {
 		log.Debugf("postfix processing currentToken %v", currentToken.toString(true))
@@ -103,7 +104,8 @@ func (p *expressionPostFixerImpl) ConvertToPostfix(infixTokens []*token) ([]*Ope
 
 				opStack, result = popOpToResult(opStack, result)
 			}
-			if len(opStack) == 0 {
+			if len(opStack) == 0 || (len(opStack) == 1 && currentToken != implicitClose) {
+				// the implicit outer bracket can only be closed by the implicit close at the very end
 				return nil, errors.New("bad expression, got close brackets without matching opening bracket")
 			}
 			// now we should have ( as the last element on the opStack, get rid of it
